@@ -110,6 +110,11 @@ def run_property(pid, mod, tier, replay):
             else:
                 discharged += 1
                 audit_detail[t] = sorted(ax)
+        if tier == "thorough" and imports:
+            lc_ok, lc_out, lc_n = common.leanchecker(imports)
+            rep.cov["leanchecker"] = {"modules_replayed": lc_n, "ok": lc_ok}
+            if not lc_ok:
+                ctx.broken_obligations.append({"kind": "leanchecker rejected a compiled module", "log_tail": lc_out})
     rep.cov["theorems"] = audit_detail
     # ---------------------------------------------------------------- correspondence + oracles
     ctx.fp = common.import_flowpaths()
